@@ -804,9 +804,16 @@ func (self *PathNode) handleChild(in *[]PathNode, lp *int, cp *int, p *thrift.Bi
 	var l = *lp
 	guardPathNodeSlice(&con, l)
 	if l >= len(con) {
+		// the slice may be reused from a previous load: slots skipped over must read as empty
+		old := len(con)
 		con = con[:l+1]
+		for i := old; i < l; i++ {
+			con[i] = PathNode{}
+		}
 	}
 	v := &con[l]
+	// children left over from a previous load do not belong to this value
+	v.Next = v.Next[:0]
 	l += 1
 
 	ss := p.Read
@@ -1200,6 +1207,12 @@ func (self *PathNode) scanChildren(p *thrift.BinaryProtocol, recurse bool, opts 
 				// NOTE: we use original count*2 as the capacity of the hash table.
 				N = size * 2
 				guardPathNodeSlice(&con, N-1)
+				// the slice may be reused from a previous load: every slot of the table must read as empty
+				con = con[:N]
+				for i := range con {
+					con[i] = PathNode{}
+				}
+				con = con[:0]
 				conAddr = *(*unsafe.Pointer)(unsafe.Pointer(&con))
 				c = N
 			}
@@ -1224,6 +1237,12 @@ func (self *PathNode) scanChildren(p *thrift.BinaryProtocol, recurse bool, opts 
 				// NOTE: we use original count*2 as the capacity of the hash table.
 				N = size * 2
 				guardPathNodeSlice(&con, N-1)
+				// the slice may be reused from a previous load: every slot of the table must read as empty
+				con = con[:N]
+				for i := range con {
+					con[i] = PathNode{}
+				}
+				con = con[:0]
 				conAddr = *(*unsafe.Pointer)(unsafe.Pointer(&con))
 				c = N
 			}
